@@ -1395,6 +1395,10 @@ func (h *hist) lockt(c *client, fh fhRef, loKey string, rangeIdx int, write, sta
 	if write {
 		lt = nfsv4.WRITE_LT
 	}
+	if len(want) == 2 && h.chance(8) {
+		lt = nfsv4.NfsLockType4(9)
+		want = []nfsv4.Nfsstat4{nfsv4.NFS4ERR_INVAL}
+	}
 	rg := lockRanges[rangeIdx]
 	clientID := c.clientID()
 	if staleClientID {
